@@ -523,7 +523,7 @@ ARace(e) ==
 \* L is the length of the fault-free file.
 OutcomeBad(o, mode, L) ==
     LET k == o[1]  err == o[2]  complete == o[4]  n == o[6] IN
-    IF mode \in {"fail", "retry", "fail1"}   \* "retry": a second WriteTo on the same Merger after a complete first one;
+    IF mode \in {"fail", "retry", "fail1", "failsync"}   \* "failsync": "fail" on a destination that also has a Sync method; "retry": a second WriteTo on the same Merger after a complete first one;
                                               \* "fail1": a single Write call fails, later ones are accepted again
     THEN \/ err \in {"panic", "blocked", "closed"}
          \/ (k < L /\ err = "nil")                              \* silent success on a failed writer
@@ -542,6 +542,18 @@ AWFault(e) ==
                     THEN e.outcomes[CHOOSE i \in DOMAIN e.outcomes : OutcomeBad(e.outcomes[i], e.mode, e.L) \/ CountBad(e.outcomes[i])]
                     ELSE <<>>
     IN /\ obs' = Obs("wfault", {"C11", "C12"}, bad, <<e.kind, e.mode, e.buf, e.L>>, firstBad)
+       /\ Frame
+
+\* C19 / C03: the same merge run again and again while ONE read of a file-backed input fails (the k-th read of the
+\* run; "once": only that read, "after": every read from it on).  Each outcome <<k, mode, err, same>>: a run that
+\* reports success delivered exactly the bytes of the undisturbed merge (a merge is a function of its inputs);
+\* nothing panics or hangs.  Whether a run fails is not prescribed: a read may be one the result does not need.
+SweepBad(o) == o[3] \in {"panic", "blocked"} \/ (o[3] = "nil" /\ ~o[4])
+AMergeFSweep(e) ==
+    LET bad == IF e.res.kind # "ok" THEN {} ELSE
+               IF \E i \in DOMAIN e.outcomes : SweepBad(e.outcomes[i]) THEN {"C19", "C03"} ELSE {}
+        firstBad == IF bad # {} THEN e.outcomes[CHOOSE i \in DOMAIN e.outcomes : SweepBad(e.outcomes[i])] ELSE <<>>
+    IN /\ obs' = Obs("merge_fsweep", {"C19", "C03"}, bad, <<e.file, e.seg, e.reads>>, firstBad)
        /\ Frame
 
 \* the harness dropped its temporary handles; forget them too (keeps the tables small)
